@@ -27,7 +27,7 @@ ASSUMPTIONS = [
 MODES = ["ma", "mb", "mc", "md"]
 PRIO = {"ma": 100, "mb": 100, "mc": 300, "md": 50, "attract": 10}
 LIFE = ["will_start", "starting", "started", "will_stop", "stopping", "stopped"]
-ACTIVITY = ["hit_a", "arm_a", "pause_a", "light_b", "coil_b", "play_b", "step_b1", "step_b2", "hit_c", "step_c1", "md_ping"]
+ACTIVITY = ["hit_a", "hit_a_cond", "stop_ma_cond", "arm_a", "pause_a", "light_b", "coil_b", "play_b", "step_b1", "step_b2", "hit_c", "step_c1", "md_ping"]
 
 mode_i = st.integers(0, 3)
 prio_arg = st.sampled_from([None, None, None, 5, 150, 400])
@@ -313,6 +313,177 @@ def check(case):
     return Result(vio or None, sorted(classes) or ["plain"], nontrivial)
 
 
+# ---- game mode (devices whose state persists per player, conditional entries) ------------------------------------------
+G_ACT = ["arm_e", "arm_e", "disarm_e", "adv_e", "hit_e", "hit_e_cond", "stop_me_cond", "start_me_cond"]
+g_op = st.one_of(
+    st.tuples(st.just("start"), st.sampled_from(["call", "event"])).map(list),
+    st.tuples(st.just("start"), st.sampled_from(["call", "event"])).map(list),
+    st.tuples(st.just("stop"), st.sampled_from(["call", "event"])).map(list),
+    st.tuples(st.just("activity"), st.sampled_from(G_ACT)).map(list),
+    st.tuples(st.just("activity"), st.sampled_from(G_ACT)).map(list),
+    st.tuples(st.just("switch3"), st.integers(0, 1)).map(list),
+    st.just(["drain"]), st.just(["game_start"]), st.just(["game_end"]),
+    st.tuples(st.just("advance"), st.sampled_from([0, 1, 10, 50, 100, 300])).map(list),
+)
+case_game = st.fixed_dictionaries({"ops": st.lists(g_op, min_size=3, max_size=40).map(lambda l: [["game_start"]] + l)})
+
+
+def check_game(case):
+    """Mode 'me' (game_mode) is started and stopped inside a running game; whenever it is stopped the registries equal
+    what they were at the start of the ball (and, with no game running, what they were before the first game)."""
+    vio = []
+    classes = set()
+    global MODES    # pylint: disable=global-statement
+    saved_modes = MODES
+    MODES = ["ma", "mb", "mc", "md", "me"]
+    try:
+        with Rig("modes7", base="fakegame") as rig:
+            m = rig.machine
+            ev = m.events
+            me = m.modes["me"]
+
+            def _add_ball(**kwargs):
+                m.playfield.balls += 1
+                m.playfield.available_balls += 1
+            m.playfield.add_ball = _add_ball
+            m.ball_controller.num_balls_known = 3
+            last = [None]
+            seq = []
+            phase = {"ball": False}
+            ball_base = [None]
+            cycles = [0]
+
+            def v(sig, msg):
+                if len(vio) < 5:
+                    vio.append(violation(sig, msg))
+
+            def lifecycle(name, **kwargs):
+                idx = LIFE.index(name)
+                expected_prev = LIFE[idx - 1] if idx > 0 else "stopped"
+                if not (last[0] == expected_prev or (last[0] is None and name == "will_start")):
+                    v("game-mode-lifecycle-order:%s-after-%s" % (name, last[0]),
+                      "mode me posted %s after %s (%r)" % (name, last[0], seq[-8:]))
+                last[0] = name
+                seq.append(name)
+                if name == "started":
+                    cycles[0] += 1
+            for name in LIFE:
+                ev.add_handler("mode_me_" + name, functools.partial(lifecycle, name), priority=-5)
+            ev.add_handler("ball_started", lambda **kwargs: phase.__setitem__("ball", True), priority=-1000)
+            ev.add_handler("ball_will_end", lambda **kwargs: phase.__setitem__("ball", False), priority=-1000)
+            rig.advance(0.05)
+            base0 = snapshot(m)
+
+            def stopped():
+                return last[0] in (None, "stopped") and not (me.active or me.starting or me.stopping)
+
+            def compare(base, where):
+                now = snapshot(m)
+                for k in base:
+                    if now[k] != base[k]:
+                        extra = [x for x in now[k] if x not in base[k]]
+                        gone = [x for x in base[k] if x not in now[k]]
+                        v("game-mode-leak:%s" % k, "mode me is stopped (%s) but %s differs from the state before it ran: "
+                          "extra %r, missing %r" % (where, k, extra[:4], gone[:4]))
+                        return
+
+            for o in case["ops"]:
+                if vio:
+                    break
+                k = o[0]
+                try:
+                    if k == "game_start":
+                        if m.game is None:
+                            m.switch_controller.process_switch("s_start", 1, logical=True)
+                            rig.run_ready()
+                            m.switch_controller.process_switch("s_start", 0, logical=True)
+                            rig.advance(0.3)
+                            if m.game is not None and phase["ball"] and stopped():
+                                ball_base[0] = snapshot(m)
+                    elif k == "game_end":
+                        if m.game is not None:
+                            m.game.end_game()
+                            m.playfield.balls = 0
+                            m.playfield.available_balls = 0
+                            rig.advance(1.0)
+                            classes.add("game ended")
+                    elif k == "drain":
+                        if m.game is not None and phase["ball"] and m.game.balls_in_play > 0:
+                            ev.post_relay("ball_drain", balls=m.game.balls_in_play)
+                            m.playfield.balls = 0
+                            m.playfield.available_balls = 0
+                            rig.advance(0.6)
+                            classes.add("ball ended with the mode " + ("running" if cycles[0] else "never started"))
+                            if m.game is not None and phase["ball"] and stopped():
+                                ball_base[0] = snapshot(m)
+                            else:
+                                ball_base[0] = None
+                    elif k == "start":
+                        can = m.game is not None and phase["ball"] and stopped() and m.game.player is not None
+                        pos = len(seq)
+                        if o[1] == "call":
+                            me.start()
+                        else:
+                            ev.post("start_me")
+                        rig.advance(0.05)
+                        if can and "will_start" not in seq[pos:]:
+                            v("game-mode-start-ignored", "start request (%s) for the stopped game mode me during a ball was "
+                              "not acted on" % o[1])
+                    elif k == "stop":
+                        if o[1] == "call":
+                            me.stop()
+                        else:
+                            ev.post("stop_me")
+                        rig.advance(0.05)
+                    elif k == "activity":
+                        if o[1] == "arm_e" and me.active:
+                            classes.add("enable event while the mode is active")
+                        ev.post(o[1])
+                        rig.run_ready()
+                    elif k == "switch3":
+                        m.switch_controller.process_switch("s_m3", o[1], logical=True)
+                        rig.run_ready()
+                    elif k == "advance":
+                        rig.advance(o[1] / 1000.0)
+                except Exception as e:   # pylint: disable=broad-except
+                    import traceback
+                    v("exception:%s" % type(e).__name__, "operation %r raised %r\n%s" % (o, e, traceback.format_exc()[-1200:]))
+                    break
+                if rig.exceptions:
+                    v("loop-exception", "exception reached the loop after %r: %s" % (o, rig.exception_summaries()[:2]))
+                if m.game is None:
+                    phase["ball"] = False
+                    ball_base[0] = None
+                    if stopped() and k in ("advance", "game_end", "drain"):
+                        rig.advance(0.2)
+                        if m.game is None and stopped():
+                            compare(base0, "no game running, after %r" % (o,))
+                elif phase["ball"] and stopped() and ball_base[0] is not None and k in ("stop", "advance") and cycles[0]:
+                    rig.advance(0.05)
+                    if phase["ball"] and stopped() and m.game is not None:
+                        classes.add("mode stopped inside a ball")
+                        compare(ball_base[0], "same ball, after %r" % (o,))
+            if not vio:
+                if m.game is not None:
+                    m.game.end_game()
+                    m.playfield.balls = 0
+                    m.playfield.available_balls = 0
+                rig.advance(3.0)
+                if not stopped():
+                    v("game-mode-stuck:%s" % last[0], "game mode me did not stop with its game: last event %r, active=%r" %
+                      (last[0], me.active))
+                elif m.game is None:
+                    compare(base0, "at end, no game running")
+    finally:
+        MODES = saved_modes
+    if cycles[0] >= 2:
+        classes.add(">=2 cycles of the game mode")
+    nontrivial = cycles[0] >= 1 and bool(classes & {"mode stopped inside a ball", "game ended",
+                                                    "ball ended with the mode running"})
+    return Result(vio or None, sorted(classes) or ["plain"], nontrivial)
+
+
 SUBCHECKS = [
     SubCheck("history", lambda: case_strategy, check, quick=3000, thorough=40000, procs_quick=8),
+    SubCheck("game", lambda: case_game, check_game, quick=1500, thorough=25000, procs_quick=6),
 ]
